@@ -149,6 +149,9 @@ def flush (permit close : Bool) (sid : StateId) (snap : Snap) (res : List Respon
   match e with
   | some e => { snap := snap', rem, clearRecent := [], result := .err e }
   | none =>
+    -- CLOSE context: nothing is announced (and `Merge` is not called)
+    if close then { snap := snap', rem, clearRecent := cl, result := .ok [] }
+    else
     match Resp.merge raw with
     | .ok out => { snap := snap', rem, clearRecent := cl, result := .ok out }
     | .error () => { snap := snap', rem, clearRecent := cl, result := .mergePanic }
